@@ -1093,6 +1093,7 @@ Definition terms_ok : bool :=
                     ++ struct_modifiers T).
 
 End Model.
+Arguments MOk {A} a. Arguments MErr {A} i d. Arguments SOk {A} a. Arguments SErr {A} d.
 
 (* ------------------------------------------------------------------------------------------------------------------ *)
 (* the regenerated instance *)
